@@ -121,6 +121,9 @@ class Track(object):
                     self.add_notes(chord, dur)
 
                     # warning should hold note
+                    if chord is not None:
+                        # the part after the bar line gets its own container
+                        chord = NoteContainer(chord)
                     self.add_notes(chord, value.subtract(duration, dur))
 
         for c in chords:
